@@ -944,7 +944,42 @@ def prepare_block(b, blocks):
     return r
 
 
+CACHE = os.environ.get('BSV_CACHE')   # opt-in (mutation campaigns): proved blocks keyed by the exact generated C text
+
+
+def _cache_key(r):
+    b = r.block
+    txt = open(r.cfile).read()
+    txt = re.sub(r'/\*[^*\n]*\*/', '', txt)      # provenance comments (paths, line ranges)
+    cfg = repr((b.name, b.mode, b.kind, b.fn, getattr(b, 'defines', []), b.bounded, getattr(b, 'cap', 8), getattr(b, 'canarycap', None),
+                b.solvers, getattr(b, 'replace_eff', b.replace), getattr(b, 'recursive', False), b.noharness, b.timeout, TIMEOUT, FAST_TIMEOUT,
+                getattr(b, 'unwind', None), getattr(b, 'split', None)))
+    h = hashlib.sha256()
+    for part in (txt, cfg) + tuple(open(os.path.join(ROOT, 'rt', f)).read() for f in sorted(os.listdir(os.path.join(ROOT, 'rt')))):
+        h.update(part.encode())
+    return h.hexdigest()
+
+
 def run_block(r, blocks, keep=False, verbose=False):
+    if r.cfile is None or not CACHE:
+        return _run_block(r, blocks, keep, verbose)
+    key = os.path.join(CACHE, _cache_key(r) + '.json')
+    if os.path.exists(key) and os.environ.get('BSV_CACHE_MODE', 'rw') != 'w':
+        d = json.load(open(key))
+        r.obligations, r.status, r.reason, r.solver, r.canary = d['obligations'], d['status'], d['reason'], d['solver'], d['canary']
+        r.time, r.cached = 0.0, True
+        r.bounded_only = False
+        return r
+    r = _run_block(r, blocks, keep, verbose)
+    if r.status in ('proved', 'bounded'):
+        os.makedirs(CACHE, exist_ok=True)
+        with open(key + '.tmp%d' % os.getpid(), 'w') as f:
+            json.dump({'obligations': r.obligations, 'status': r.status, 'reason': r.reason, 'solver': r.solver, 'canary': r.canary}, f)
+        os.replace(key + '.tmp%d' % os.getpid(), key)
+    return r
+
+
+def _run_block(r, blocks, keep=False, verbose=False):
     b = r.block
     if r.cfile is None:
         return r
@@ -1225,7 +1260,7 @@ def check_property(pid, tier, blocks, verbose=True):
             'blocks': [{'block': r.block.name, 'kind': r.block.kind, 'mode': r.block.mode, 'status': r.status,
                         'obligations': len(r.obligations), 'solver': r.solver, 'wall_s': round(r.time, 2),
                         'canary': r.canary, 'replaced_callees': r.block.replace, 'c_hash': r.chash,
-                        'bounded': r.block.bounded} for r in res],
+                        'bounded': r.block.bounded, **({'from_cache': True} if getattr(r, 'cached', False) else {})} for r in res],
             'discharged_by_backend': by_solver,
             'solver_wall_s': round(solver_time, 1),
             'undecided_blocks': [r.block.name for r in undecided],
